@@ -335,7 +335,7 @@ spif_array_comp(spif_array_t self, spif_array_t other)
     spif_listidx_t i;
 
     SPIF_OBJ_COMP_CHECK_NULL(self, other);
-    for (i = 0; i < self->len; i++) {
+    for (i = 0; (i < self->len) && (i < other->len); i++) {
         spif_cmp_t c;
 
         if (SPIF_OBJ_ISNULL(self->items[i]) && SPIF_OBJ_ISNULL(other->items[i])) {
@@ -350,7 +350,8 @@ spif_array_comp(spif_array_t self, spif_array_t other)
             return c;
         }
     }
-    return SPIF_CMP_EQUAL;
+    /* Equal as far as the shorter one goes, so the shorter one sorts first. */
+    return SPIF_CMP_FROM_INT(self->len - other->len);
 }
 
 static spif_array_t
